@@ -90,6 +90,7 @@ class Interp:
         self.loop_ord = {}
         self.spec_mode = 0
         self.trusted = set()              # stub names used
+        self.applied = set()              # keys of the callee contracts this function's verification relied on
         self.bound = []                   # z3 constants currently bound by an enclosing quantifier / comprehension
         self.dropped = []
         from . import stubs, speclib
@@ -177,6 +178,15 @@ class Interp:
             self.check_ensures(s, res, contract)
         return self.obligations
 
+    def frame_only(self, contract):
+        """Only the syntactic frame obligation of a function (used for the callee closure of determinism properties)."""
+        self.cur = contract
+        fn = frontend.load_function(contract['module'], contract['qualname'])
+        self.fn = fn
+        contract['_sha'] = fn.sha()
+        self.check_purity(fn, contract)
+        return self.obligations
+
     def check_purity(self, fn, contract):
         """Syntactic frame check behind `function_symbol` / `frame`: the function reads only its parameters and locals:
         no `global`, no RNG / clock / file access, no module-level mutable object, and every same-module callee is
@@ -217,6 +227,9 @@ class Interp:
                     bad.append(n.func.id)
                 if n.func.id in module_funcs and n.func.id not in local_names and self.lookup_contract(n.func.id) is None:
                     bad.append(f'callee `{n.func.id}` is not under contract')
+                cc = self.lookup_contract(n.func.id) if n.func.id not in local_names else None
+                if cc is not None and not cc.get('external'):
+                    self.applied.add(cc['key'])
         name = self.oname('frame.pure')
         self.obligations.append(Obligation(name, [], z3.BoolVal(not bad),
                                            text='reads only parameters and locals (no globals / RNG / clock / files / module-level '
@@ -556,8 +569,25 @@ class Interp:
         except Exception:
             return type(node).__name__
 
+    def cond(self, e, st):
+        """Truth value of a test expression: `a and b` / `a or b` / `not a` only need the operands' truth (python's value
+        semantics of and/or is irrelevant in a condition), evaluated with short-circuit guards."""
+        if isinstance(e, ast.BoolOp):
+            is_and = isinstance(e.op, ast.And)
+            ts = []
+            for x in e.values:
+                t = self.cond(x, st)
+                ts.append(t)
+                st.guards.append(t if is_and else z3.Not(t))
+            for _ in ts:
+                st.guards.pop()
+            return z3.And(*ts) if is_and else z3.Or(*ts)
+        if isinstance(e, ast.UnaryOp) and isinstance(e.op, ast.Not):
+            return z3.Not(self.cond(e.operand, st))
+        return self.truth(self.eval(e, st), st)
+
     def exec_if(self, s, st):
-        c = self.truth(self.eval(s.test, st), st)
+        c = self.cond(s.test, st)
         cs = z3.simplify(c)
         if z3.is_true(cs):
             return self.exec_block(s.body, st)
@@ -1837,6 +1867,7 @@ class Interp:
             names, defaults = list(c['param_names']), []
             self.trusted.add('assumed contract: ' + c['key'])
         else:
+            self.applied.add(c['key'])
             fn = frontend.load_function(c['module'], c['qualname'])
             names = [a.arg for a in fn.node.args.args]
             defaults = fn.node.args.defaults
